@@ -9,7 +9,7 @@ args = sys.argv[1:]
 also = []
 if args and args[0] == "--also":
     also = args[1].split(","); args = args[2:]
-res_path = S / "RESULTS.json"
+res_path = Path(os.environ.get("SEEDED_RESULTS", str(S / "RESULTS.json")))
 results = json.load(open(res_path)) if res_path.exists() else {}
 claimed = {c["property_id"] for c in json.load(open(V / "MANIFEST.json"))["checks"]}
 for d in sorted(p for p in S.iterdir() if p.is_dir()):
